@@ -60,7 +60,17 @@ def run(ctx: Ctx) -> Outcome:
         return rtcheck.replay_outcome('C14', ctx, also=('C07',))
     scs = scenarios(ctx)
     model_cov, notes = {}, []
-    out = rtcheck.validate('C14', scs, ctx, also=('C07',), extra_cov=model_cov)
+    # real processes, real sockets, SIGKILL of a worker / the manager at a random moment after the submit
+    import random as _r
+    rr = _r.Random(ctx.seed + 77)
+    real = []
+    for i in range(3 if ctx.quick else 30):
+        real.append({'topo': ['detached', [2]], 'progs': rtcheck.LIB[['W', 'B', 'A'][i % 3]],
+                     'clients': [[['submit', 'H0', 'root'], ['result', 'H0']]], 'sched': ['os'], 'lines': False,
+                     'crash': [['worker', 'worker', 'manager'][i % 3], round(rr.uniform(0.0, 0.25), 3)], 'probe': False})
+    real_traces = rtcheck.run_real_scenarios(real, ctx)
+    model_cov['real_process_crash_runs'] = len(real_traces)
+    out = rtcheck.validate('C14', scs, ctx, also=('C07',), extra_cov=model_cov, extra_traces=real_traces)
     out.notes += notes
     # fault_enumeration evidence keys
     crashed = sum(1 for s in scs if s.get('crash'))
